@@ -667,7 +667,7 @@ pub fn s_cw(thorough: bool) -> Space {
 /// S_antimask: the anti-mask payloads of every mask and both polarities, mask automatic (and forced to k)
 pub fn s_antimask(thorough: bool) -> Space {
     let mut cases = vec![];
-    let versions: Vec<usize> = if thorough { (1..=40).collect() } else { vec![1, 2, 7, 20, 39, 40] };
+    let versions: Vec<usize> = if thorough { (1..=40).collect() } else { vec![1, 2, 5, 7, 9, 20, 39, 40] };
     let levels: &[usize] = if thorough { &[0, 1, 2, 3] } else { &[0, 3] };
     for &v in &versions {
         for &e in levels {
